@@ -619,6 +619,13 @@ class Scheduler:
             step, state = result
             job = self._derive_job(step)
             step.set_state(state)
+            if state == StepState.RUNNING:
+                # The steps created by an earlier run of this step are dropped or recreated by
+                # the new run, but `reset_for_rerun()` only detaches them in a later transaction,
+                # after the inputs were hashed.
+                # Until then, such a step would pass for one created by a running step
+                # and could be dispatched by the next call, so detach them right away.
+                step._detach_created_steps()
             logger.debug("Derived %s job: %s", state.name.lower(), job)
             logger.info("Pop %s", job.name)
             return job
